@@ -31,7 +31,7 @@ RULE = (
     "(replica, op kind, fault kind, graph shape class); non-trivial = at least one reorder/duplicate fault fired and >=2 replicas"
 )
 STATE_MEASURE = "(layer, #nodes, tree|cyclic, canonical degree sequence, #dups) for abstract; (layer, multiset of frame kinds, #replicas) for frames"
-PROBES = ["origin_checked", "route_replaced_by_shorter", "dup_link_delivered", "query_on_partial_graph", "disconnected_pair_reported", "builtin_graph_replayed", "frames_convergence_checked", "two_hop_oracle_checked", "frame_of_a_derived_orbit", "user_orientation_followed_both_ways", "local_axes_checked", "origin_checked_at_the_epoch_of_a_tle_orbit"]
+PROBES = ["origin_checked", "route_replaced_by_shorter", "dup_link_delivered", "query_on_partial_graph", "disconnected_pair_reported", "builtin_graph_replayed", "frames_convergence_checked", "two_hop_oracle_checked", "frame_of_a_derived_orbit", "user_orientation_followed_both_ways", "local_axes_checked", "origin_checked_at_the_epoch_of_a_tle_orbit", "same_reading_other_scale_checked"]
 REAL_VS_STUB = "real: beyond.utils.node.Node, frames/center/orient/stations registries, propagators; stub: none (EOP = zeros by policy 'pass'); model: BFS on explicit adjacency, two-hop composition through pristine nodes"
 ASSUMPTIONS = ["tree space on 8 nodes is sampled, not enumerated (thorough tier additionally sweeps all labelled trees on <=5 nodes with all orders)", "numpy/sgp4 are trusted"]
 SAMPLED_ONLY = []
@@ -535,8 +535,8 @@ def _run_builtin(plan, ctx, pkg, NodeCls):
 # ------------------------------------------------------------------- frames
 
 
-def _mk_date(node, mjd):
-    return node.Date(float(mjd), scale="UTC")
+def _mk_date(node, mjd, scale="UTC"):
+    return node.Date(float(mjd), scale=scale)
 
 
 def _ref_object(node, msg, kn, refs=None, lookup=None):
@@ -615,8 +615,8 @@ def _register(node, msg, kn, refs=None, lookup=None):
     raise ValueError(msg["op"])
 
 
-def _convert(node, kn, src, dst):
-    date = _mk_date(node, kn["date_mjd"])
+def _convert(node, kn, src, dst, scale="UTC"):
+    date = _mk_date(node, kn["date_mjd"], scale)
     sv = node.StateVector(kn["probe"], date, "cartesian", src)
     out = sv.copy(frame=dst)
     return np.array(out.base if out.base is not None else out, dtype=float)
@@ -810,9 +810,11 @@ def _run_frames(plan, ctx):
         # independent oracle: two hops through EME2000 on pristine nodes that registered only one of the frames
         oracle = {}
 
-        def pristine(name):
+        def pristine(name, tag=""):
+            name_ = name
+            name = (name_, tag)
             if name not in oracle:
-                n = Node(f"oracle-{name}")
+                n = Node(f"oracle-{name_}{tag}")
                 with n:
                     n.config.update({"eop": {"missing_policy": "pass"}})
 
@@ -824,7 +826,7 @@ def _run_frames(plan, ctx):
                                 reg(d)
                             _register(n, msgs_by_name[nm], kn, prefs, msgs_by_name)
 
-                    reg(name)
+                    reg(name_)
                 oracle[name] = n
             return oracle[name]
 
@@ -852,6 +854,34 @@ def _run_frames(plan, ctx):
                     {"kind": "differs_from_single_link_composition", "layer": "frames"},
                     f"{a}->{b}: routed conversion differs from the composition {a}->EME2000->{b} on pristine nodes by {dp:.3e} m, {dv:.3e} m/s",
                 )
+        # the same clock reading under another time-scale label is another instant (up to a minute apart): a replica that has just served
+        # the UTC date serves it like a process that never saw the UTC one
+        for a, b in sample[:2]:
+            if (a, b) not in vals:
+                continue
+            for sc in ("TAI", "TT"):
+                r0 = full[0]
+                with nodes[r0]:
+                    try:
+                        got = _convert(nodes[r0], kn, a, b, sc)
+                    except Exception as e:  # noqa
+                        got = None
+                if got is None:
+                    continue
+                na, nb = pristine(a, sc), pristine(b, sc)
+                with na:
+                    mid = np.array(na.StateVector(kn["probe"], _mk_date(na, kn["date_mjd"], sc), "cartesian", a).copy(frame="EME2000"), dtype=float)
+                with nb:
+                    exp = np.array(nb.StateVector(mid, _mk_date(nb, kn["date_mjd"], sc), "cartesian", "EME2000").copy(frame=b), dtype=float)
+                scale = max(np.linalg.norm(mid[:3]), np.linalg.norm(got[:3]), 1.0)
+                vscale = max(np.linalg.norm(mid[3:]), np.linalg.norm(got[3:]), 1.0)
+                dp = np.linalg.norm(got[:3] - exp[:3])
+                dv = np.linalg.norm(got[3:] - exp[3:])
+                ctx.checks += 1
+                ctx.probe("same_reading_other_scale_checked")
+                if dp > 1e-6 + 1e-11 * scale or dv > 1e-9 + 1e-11 * vscale:
+                    ctx.violate("valid-chain", {"kind": "depends_on_an_earlier_conversion", "layer": "frames"}, f"{a}->{b} at the same clock reading labelled {sc}, after the UTC conversions: differs from pristine processes that only served the {sc} date by {dp:.3e} m, {dv:.3e} m/s")
+                    return
 
 
 def run_plan(plan, ctx):
